@@ -1,7 +1,7 @@
 (* Entry.v — single extracted entry point [run]: request = VList [VStr name; arg].
    All marshalling is done here in Gallina so that ocaml/driver.ml stays generic. *)
 From Coq Require Import ZArith List Bool String Ascii.
-From Verif Require Import PyStr Normalize NormalizeGen Util UtilGen Toc TocGen Footnote FootnoteGen Cli CliGen StoreGen Rx UnicodeGen RxGen Scanner RefLinks.
+From Verif Require Import PyStr Normalize NormalizeGen Util UtilGen Toc TocGen Footnote FootnoteGen Cli CliGen StoreGen Rx UnicodeGen RxGen Scanner RefLinks Tmpl HtmlRender TmplGen.
 Import ListNotations.
 Open Scope Z_scope.
 
@@ -39,6 +39,12 @@ Definition enc_match (r : option mresult) : pval :=
   match r with
   | None => VNone
   | Some (a, b, c) => VList [vnat a; vnat b; VList (map (fun e : nat * (nat * nat) => VList [vnat (fst e); vnat (fst (snd e)); vnat (snd (snd e))]) c)]
+  end.
+
+Fixpoint find_template (nm : str) (l : list (template * list pkind * list (nat * bool))) : option template :=
+  match l with
+  | [] => None
+  | (t, _, _) :: l' => if str_eqb nm (t_name t) then Some t else find_template nm l'
   end.
 
 Definition run_named (name : str) (arg : pval) : pval :=
@@ -145,6 +151,19 @@ Definition run_named (name : str) (arg : pval) : pval :=
                            | None => VNone end)
                  (resolve_all (run_unikey T unikey_ops) ds us))
     | _ => VErr "arg" end
+  else if is_name name "render" then
+    match arg with
+    | VList [VStr nm; VBool esc; VList vals] =>
+      match find_template nm all_templates with
+      | None => VErr "no such template"
+      | Some t =>
+        let pvs := map (fun v => match v with VStr s => PStr s | VBool b => PBool b | VInt z => PInt z | _ => PNone end) vals in
+        let E := {| r_escape := esc; r_safe_url := safe_url harmful_protocols good_data_protocols escape_ops; r_tables := T |} in
+        VStr (render E escape_ops t pvs)
+      end
+    | _ => VErr "arg" end
+  else if is_name name "safe_url" then
+    match arg with VStr u => VStr (safe_url harmful_protocols good_data_protocols escape_ops u) | _ => VErr "arg" end
   else VErr "unknown function".
 
 Definition run (req : pval) : pval :=
